@@ -21,22 +21,26 @@ const (
 	absent vis = iota
 	private
 	public
+	event // `event fn`: the third function modifier; like private it is not importable
 )
 
 func (v vis) prefix() string {
-	if v == public {
+	switch v {
+	case public:
 		return "pub "
+	case event:
+		return "event "
 	}
 	return ""
 }
 
-var visNames = []string{"absent", "private", "pub"}
+var visNames = []string{"absent", "private", "pub", "event"}
 
-func c15F1Count() int { return 3 * 2 * 3 * 3 * 16 }
+func c15F1Count() int { return 4 * 3 * 3 * 3 * 16 }
 
 func c15F1(idx int, r *Result) {
-	d := radix(idx, 16, 3, 3, 2, 3)
-	imp, tv, vv, gv, fv := d[0], vis(d[1]), vis(d[2]), vis(d[3]*2), vis(d[4])
+	d := radix(idx, 16, 3, 3, 3, 4)
+	imp, tv, vv, gv, fv := d[0], vis(d[1]), vis(d[2]), []vis{absent, public, event}[d[3]], vis(d[4])
 	var lib strings.Builder
 	if vv != absent {
 		fmt.Fprintf(&lib, "%slet v = 41;\n", vv.prefix())
